@@ -15,6 +15,8 @@ pub struct Cx {
     pub a: Vec<u8>,
     pub max_len: usize,
     pub thorough: bool,
+    /// Build the human-readable `CaseOut::params` (only needed for samples and violation texts).
+    pub want_params: bool,
 }
 
 impl Cx {
@@ -75,9 +77,9 @@ pub struct Tier {
 }
 
 /// Execute one case: the chooser is moved into a fresh `Env` for the duration of the case.
-pub fn exec_case(s: &Section, a: &[u8], t: &Tier, ch: &mut Chooser) -> CaseRes {
+pub fn exec_case(s: &Section, a: &[u8], t: &Tier, ch: &mut Chooser, want_params: bool) -> CaseRes {
     let env = Env::new(std::mem::replace(ch, Chooser::replay(vec![])));
-    let cx = Cx { env: env.clone(), a: a.to_vec(), max_len: t.max_len, thorough: t.thorough };
+    let cx = Cx { env: env.clone(), a: a.to_vec(), max_len: t.max_len, thorough: t.thorough, want_params };
     let r = catch(|| (s.f)(&cx));
     drop(cx);
     *ch = env.take_chooser();
@@ -123,14 +125,17 @@ pub fn run_section(prop: &str, s: &Section, shards: &[Vec<u8>], t: &Tier, cap_pe
         let mut st = Stats::new();
         let mut diffs: HashMap<Vec<usize>, (u64, Vec<usize>)> = HashMap::new();
         let es = explore(Some(t.k), cap_per_shard, |ch| {
-            let mut res = exec_case(s, a, t, ch);
+            let mut res = exec_case(s, a, t, ch, false);
             st.eval();
             if res.pend_count > 0 && (!res.free_key.is_empty() || !a.is_empty()) {
-                st.nontrivial(&(s.name, a, &res.params));
+                st.nontrivial(&(s.name, a, &res.free_key));
             }
             st.outcome(&(s.name, res.observed));
-            st.sample(|| json!({"section": s.name, "shard": a, "params": res.params, "choices": res.choices,
-                                 "pendings_injected": res.pend_count, "faults": res.faults.len()}));
+            st.sample(|| {
+                let r = exec_case(s, a, t, &mut Chooser::replay(res.choices.clone()), true);
+                json!({"section": s.name, "shard": a, "params": r.params, "choices": res.choices,
+                       "pendings_injected": res.pend_count, "faults": res.faults.len()})
+            });
             if s.differential
                 && let Some(d) = res.diff
             {
@@ -148,7 +153,7 @@ pub fn run_section(prop: &str, s: &Section, shards: &[Vec<u8>], t: &Tier, cap_pe
             if !res.faults.is_empty() {
                 // Re-execute once through the plain replay path before believing it.
                 let mut ch2 = Chooser::replay(res.choices.clone());
-                let res2 = exec_case(s, a, t, &mut ch2);
+                let res2 = exec_case(s, a, t, &mut ch2, true);
                 let kinds = |r: &CaseRes| {
                     r.faults.iter().filter(|f| f.kind != "schedule-dependence").map(|f| f.kind.clone()).collect::<Vec<_>>()
                 };
@@ -171,7 +176,7 @@ pub fn run_section(prop: &str, s: &Section, shards: &[Vec<u8>], t: &Tier, cap_pe
                     let key = format!("{prop}/{}/{}", s.name, f.kind);
                     let what = format!(
                         "{}: {} — {} [shard input {:?}, {}, choices {:?}]",
-                        s.name, f.kind, f.detail, a, res.params, res.choices
+                        s.name, f.kind, f.detail, a, res2.params, res.choices
                     );
                     let rank: Rank = (a.len() + res.free_key.len(), res.choices.len(), res.choices.clone(), a.clone());
                     note_violation(&mut st, key, rank, what, replay_value(prop, s, a, t, &res.choices));
@@ -207,7 +212,7 @@ pub fn replay(prop: &str, sections: &[Section], case: &Value) -> i32 {
         thorough: case["thorough"].as_bool().unwrap_or(false),
     };
     let mut ch = Chooser::replay(choices);
-    let res = exec_case(s, &a, &t, &mut ch);
+    let res = exec_case(s, &a, &t, &mut ch, true);
     println!("replay {prop}/{name} shard={a:?} params={} choices={:?}", res.params, res.choices);
     println!("  injected pendings: {}, observed hash: {:016x}", res.pend_count, res.observed);
     if res.faults.is_empty() {
